@@ -445,7 +445,30 @@ func (w *c16World) step(s c16Step) *kvh.Fail {
 				return nil
 			}
 			if _, err := os.Stat(w.dir + "-merge"); err == nil {
-				return nil // a pending merge will replace the rotated files at the next Open: damaging one proves nothing
+				// a pending merge will replace the rotated files at the next Open, so damaging one of them proves
+				// nothing; the hint file of a finished merge is read by that Open instead (after the adoption has
+				// moved it into the data directory)
+				hint := filepath.Join(w.dir+"-merge", fmt.Sprintf("%09d.hint", 0))
+				marker := filepath.Join(w.dir+"-merge", fmt.Sprintf("%09d.merge-finished", 0))
+				orig, err := os.ReadFile(hint)
+				if fi, merr := os.Stat(marker); err != nil || merr != nil || fi.Size() == 0 || len(orig) < 16 {
+					return nil
+				}
+				bad := append([]byte(nil), orig...)
+				bad[8] ^= 0xff
+				_ = os.WriteFile(hint, bad, 0o644)
+				moved := filepath.Join(w.dir, filepath.Base(hint))
+				s.Kind = "corrupt-hint"
+				undo = func() {
+					// the failed Open may or may not have adopted the merge already
+					if _, err := os.Stat(moved); err == nil {
+						_ = os.WriteFile(moved, orig, 0o644)
+					}
+					if _, err := os.Stat(hint); err == nil {
+						_ = os.WriteFile(hint, orig, 0o644)
+					}
+				}
+				break
 			}
 			// move every data file up by making a garbage file with id 0 only if id 0 is free is not possible; damage the lowest file instead
 			var lowest, newest string
@@ -470,6 +493,11 @@ func (w *c16World) step(s c16Step) *kvh.Fail {
 			}
 			bad := append([]byte(nil), orig...)
 			bad[8] ^= 0xff // payload byte of the first chunk: checksum mismatch
+			if s.Width == 1 {
+				// a rotated file that ends in the middle of a chunk
+				bad = orig[:len(orig)-3]
+				s.Kind = "corrupt-truncated"
+			}
 			_ = os.WriteFile(p, bad, 0o644)
 			undo = func() { _ = os.WriteFile(p, orig, 0o644) }
 		case "badio":
@@ -662,7 +690,10 @@ func TestC16(t *testing.T) {
 				s.Width = 2 + kvh.U(t, 3, "cwidth")
 			case x < 92:
 				s.C = "failopen"
-				s.Kind = kvh.Pick(t, []string{"corrupt", "badname", "badio"}, "failkind")
+				s.Kind = kvh.Pick(t, []string{"corrupt", "corrupt", "badname", "badio"}, "failkind")
+				if s.Kind == "corrupt" && kvh.Pct(t, 35, "truncated") {
+					s.Width = 1
+				}
 			default:
 				s.C = "burst"
 				s.Width = 2 + kvh.U(t, 3, "width")
